@@ -20,10 +20,7 @@ use radix_engine::kernel::kernel_api::{KernelNodeApi, KernelSubstateApi};
 use radix_engine::system::system_callback::SystemLockData;
 use radix_engine::vm::{NativeVmExtension, VmApi, VmInvoke};
 use radix_blueprint_schema_init::*;
-use radix_engine_interface::api::*;
 use sbor::basic_well_known_types::ANY_TYPE;
-use radix_engine_interface::blueprints::package::*;
-use radix_engine_interface::object_modules::royalty::*;
 use radix_native_sdk::modules::metadata::Metadata;
 use radix_native_sdk::modules::role_assignment::RoleAssignment;
 use radix_native_sdk::modules::royalty::ComponentRoyalty;
